@@ -284,6 +284,17 @@ pub fn run(op: &str, args: &[&str]) -> Option<String> {
                 None => "NONE".to_string(),
             })
         }
+        ("viewtag", [h, rv, i]) => {
+            let b = unhex(h)?;
+            let i: u64 = i.parse().ok()?;
+            let rvb = unhex(rv)?;
+            let t = match deserialize::<TxOutTarget>(&b) {
+                Ok(t) => t,
+                Err(e) => return Some(crate::err_shown(&e)),
+            };
+            let rv = pk!(&show_hex(&rvb));
+            Some(format!("OK {}", t.check_view_tag(rv, i as usize) as u8))
+        }
         ("txout_key", [h]) => {
             let b = unhex(h)?;
             Some(match deserialize::<TxOut>(&b) {
